@@ -690,6 +690,16 @@ def where_rows(I, mask):
     """torch.where(mask): one index tensor per mask axis; a strictly increasing (row-major) enumeration
     sel: [0,M) -> selected positions, with the completeness inverse pos"""
     m = lift(mask)
+    # torch.where is a function of its argument: the same (immutable) mask value yields the same enumeration
+    for (m0, outs0) in I.ctx.ghost.setdefault("where_cache", []):
+        if m0 is m:
+            fresh = []
+            for o in outs0:  # fresh cells (the caller may update an index tensor in place)
+                c = Tensor(o.val)
+                c.meta.update(o.meta)
+                fresh.append(c)
+            return tuple(fresh)
+    m_key = m
     if m.dtype != "bool":
         m = tlib.ew1(m, lambda x: zbool(x), "bool")
     if m.rank == 0:
@@ -762,10 +772,20 @@ def where_rows(I, mask):
         I.ctx.schema(("all", dims), lambda idx: z3.Implies(M == total, mask_at([zint(c) for comp in idx for c in comp])))
     if nf == 0:
         I.ctx.assume(z3.If(mask_at(()), M == 1, M == 0))
+    for (widx, wdims) in I.ctx.ghost.get("minmax_witness", []):
+        # instance of the completeness axiom at the index attaining an earlier min/max over the same axes
+        if len(wdims) == len(dims) and all(a.same(b) for a, b in zip(wdims, dims)):
+            pos([c for comp in widx for c in comp])
     I.ctx.ghost.setdefault("selectors", []).append(sel)
     outs = []
     for ax, d in enumerate(dims):
         outs.append(_selector_tensor(I, sel, axis=ax))
+    snap = []
+    for o in outs:
+        c = Tensor(o.val)
+        c.meta.update(o.meta)
+        snap.append(c)
+    I.ctx.ghost["where_cache"].append((m_key, tuple(snap)))
     return tuple(outs)
 
 
